@@ -142,6 +142,24 @@ def rechunk_sweep(tier, seed):
                         fails.append(rtc.Failure("rechunk", {"old": (old,), "new": (new,)}, "ensures", "C23-rechunk-exact", msg))
             if time.time() - t0 > budget:
                 break
+        # an integer block size as target, from every (irregular) source chunking: the result is the regular chunking
+        for n in range(2, 8 if tier == "quick" else 10):
+            x = np.arange(n)
+            for old in chunkings(n):
+                for k in range(1, n + 1):
+                    cases += 1
+                    q, r_ = divmod(n, k)
+                    want = ((k,) * q + ((r_,) if r_ else ()),)
+                    try:
+                        for form in (k, (k,), {0: k}):
+                            r = da.from_array(x, chunks=(old,)).rechunk(form)
+                            if r.chunks != want or not np.array_equal(r.compute(), x):
+                                raise AssertionError(f"rechunk({form!r}) of chunks {(old,)} gives {r.chunks}, requested {want}")
+                        msg = None
+                    except Exception as e:  # noqa
+                        msg = f"{type(e).__name__}: {e}" if not isinstance(e, AssertionError) else str(e)
+                    if msg and len(fails) < 5:
+                        fails.append(rtc.Failure("rechunk", {"old": (old,), "new": k}, "ensures", "C23-rechunk-exact", msg))
         # target given as dict / tuple / list with None, -1 and omitted axes (None / omitted = keep the current chunks);
         # the same spec object reused on differently chunked arrays must not be modified by the call
         import copy as _copy
@@ -191,8 +209,10 @@ def rechunk_sweep(tier, seed):
             ca, cb = rnd.randrange(1, 12), rnd.randrange(1, b + 1)
             na, nb = rnd.randrange(1, a + 1), rnd.randrange(1, 4)
             pairs.append(((a, b), (ca, cb), (na, nb)))
+        # targets with zero-width chunks under settings that plan an intermediate step with a partial merge
+        pairs += [((40, 40), ((2,) * 20, (20, 20)), ((20, 0, 20), (2,) * 20)), ((40, 40), ((2,) * 20, (20, 20)), ((0, 20, 20, 0), (2,) * 20)), ((40, 40), ((20, 20), (2,) * 20), ((2,) * 20, (20, 0, 20)))]
         for shape, old, new in pairs:
-            for threshold, bsl in [(None, None), (1, None), (2, 10**4)]:
+            for threshold, bsl in [(None, None), (1, None), (2, 10**4), (4, 399), (4, 3199)]:
                 cases += 1
                 x = np.arange(shape[0] * shape[1]).reshape(shape)
                 try:
